@@ -545,8 +545,8 @@ func (v *Val) typeOf(m Mode, top, elem bool) (reflect.Type, error) {
 		reg := tagTypes
 		if v.T == "wrap" {
 			reg = bstrTypes
-			if m.Narrow && v.Kids[0].T != "bstr" { // ByteWrap[T] is the COSE flavour of bstr .cbor T;
-				reg = wrapTypes // (a byte string inside ByteWrap is by definition not double-encoded)
+			if m.Narrow && v.Kids[0].T != "bstr" && v.Kids[0].T != "wrap" { // ByteWrap[T] is the COSE flavour of
+				reg = wrapTypes // bstr .cbor T (a byte string inside ByteWrap is by definition not double-encoded)
 			}
 		}
 		if gt, ok := reg[it]; ok {
